@@ -266,7 +266,7 @@ func classifyBucketing(c Case) (bool, []string) {
 var specBucketing = pbt.Spec[Case]{
 	Property: prop, Name: "bucketing",
 	Rule:     "bucket/bucketrange with a constant size >0 (1..5000, powers, 2^62, MaxInt64) and a value that is m*size+{0,+-1,2} (both signs) or a boundary int64; clamp with constant min<=max and v in {min,max,min-1,max+1,inside,any}; expbucket of v>=1 around m*10^k+-1; value via constant/group/key; oracle: big.Int floor multiple / exact clamp law / power of ten p<=v<10p; 1 in 15 non-numeric. Non-trivial: exact multiple, negative, zero, at/over a bound, exact power, power-1, >2^53, non-numeric",
-	Budget:   pbt.Budget{Quick: 80000, Thorough: 4000000},
+	Budget:   pbt.Budget{Quick: 25000, Thorough: 200000},
 	Gen:      genBucketing,
 	Check:    checkBucketing,
 	Classify: classifyBucketing,
